@@ -644,8 +644,18 @@ def c10(res, wd):
                          ns // 2, depth, props)
     n, frames = sizes(res.tier, (20, 120), (150, 400))
     ps = plans.batch(res.seed * 1000 + 100, n, frames, fam=plans.drop3)
+    # equal views by construction; the drop reaches one survivor by gossip together with mispredicted inputs
+    ps += plans.batch(res.seed * 1000 + 101, sizes(res.tier, 10, 60), 100, fam=plans.gossip3)
     engines.obs_runs(res, "C10", ps, props, wd, "c10",
                      nontrivial=lambda st, pl: st["discInputs"] >= 5)
+    # history class per run: once the monitor has established that the survivors of a run hold different amounts of
+    # the dropped player's input (panic class or differing cut-offs), every violation of that run belongs to the
+    # known class
+    unequal = {v["replay"] for v in res.violations
+               if v.get("cls") == "unequal-views-of-dropped-player" or v.get("code") == "survivors-disagree-on-cutoff"}
+    for v in res.violations:
+        if v["replay"] in unequal:
+            v["cls"] = "unequal-views-of-dropped-player"
     res.rule = ("three or four rollback-mode peers, one dies at a random frame while per-link latency/loss give the "
                 "survivors different or equal amounts of its input: (1) TLC-simulated behaviours of System.tla "
                 "(Mortal peers, disconnect_player by the survivors, per-link delivery) replayed on real sessions with "
